@@ -135,12 +135,18 @@ RULE = ("random regions of 1..40 cells (random subsets of a lattice, stored in r
         "the observed catalog object is a CSEPCatalog or a UCERF3Catalog (big-endian structured rows), zero rates spelled -0.0 in 30 % "
         "of the zero-rate forecasts; forecast files are loaded alternately through GriddedForecast.load_ascii and the module-level "
         "csep.load_gridded_forecast; the rates of the shared forecast objects and the injected numbers must be unchanged after all "
-        "evaluations")
+        "evaluations. Round 7: (h) the observed catalog is handed over as copy.copy / deepcopy / pickle image / to_dict->from_dict "
+        "image / write_json->load_json image (dict / JSON: Cartesian regions only and only the evaluations that do not need the "
+        "catalog's own magnitude bins - the unchanged tree returns the region without magnitudes and loses quadtree regions, D43), "
+        "forecasts (with their region) as copy / deepcopy / pickle image; (i) rejected calls on the shared forecast objects before "
+        "the judged sequence; (j) observed catalog of a user subclass whose accessors present the events in time order whatever the "
+        "storage order; (k) numpy.errstate(divide/invalid='raise') around the N-tests; (l) the same forecast object as both arguments "
+        "of paired_t_test / w_test, the observed catalog being one of the catalog forecast's own catalog objects")
 
 REL, ABS = 1e-9, 1e-12
 GRIDDED_SIM = ["poisson_L", "poisson_CL", "poisson_S", "poisson_M", "binary_S", "binary_CL", "brier"]
-GRIDDED_ANALYTIC = ["poisson_N", "nbd_N", "paired_T", "W", "binary_T"]
-CATALOG_FREE = ["cat_N", "cat_S", "cat_M", "cat_PL"]
+GRIDDED_ANALYTIC = ["poisson_N", "nbd_N", "paired_T", "W", "binary_T", "paired_T_same", "W_same"]
+CATALOG_FREE = ["cat_N", "cat_S", "cat_M", "cat_PL", "cat_N_own"]
 CATALOG_SEEDED = ["cat_resampled_M", "cat_MLL"]
 
 
@@ -378,7 +384,11 @@ def _gen_kw(rng):
                 sim_mode=rng.choice(["seed", "seed", "global-seed", "random_numbers"]),   # how the random stream is fixed
                 mll_full=rng.random() < 0.3, verbose=rng.random() < 0.3,
                 call_form=rng.choice(["keyword", "keyword", "positional"]),   # public keyword arguments as keywords / positionally
-                obs_class=rng.choice(["CSEPCatalog", "CSEPCatalog", "UCERF3Catalog"]),   # class of the observed catalog object
+                obs_class=rng.choice(["CSEPCatalog", "CSEPCatalog", "UCERF3Catalog", "accessor-order"]),   # class of the observed catalog object
+                obs_form=rng.choice(["plain", "plain", "plain", "copy", "deepcopy", "pickle", "dict", "json"]),     # (h) image of the observed catalog
+                fore_form=rng.choice(["plain", "plain", "plain", "copy", "deepcopy", "pickle"]),                   # (h) image of the forecasts (with their region)
+                errstate=rng.random() < 0.3,                                                                        # (k)
+                bad_call_first=rng.random() < 0.3,                                                                  # (i)
                 obs_region=rng.choice(["bound", "bound", "none"]))     # observed catalog with / without its own region (D40)
 
 
@@ -632,6 +642,60 @@ def _write_catalog_forecast_file(path, cats, skip_empty=False):
                 f.write(f"{float(e[3])!r},{float(e[2])!r},{float(e[5])!r},{t.strftime('%Y-%m-%dT%H:%M:%S.%f')},{float(e[4])!r},{cid},{e[0]}\n")
 
 
+FORM_UNSUPPORTED = set()
+_TOC = {}
+
+
+def _time_order_class():
+    if "c" not in _TOC:
+        from csep.core.catalogs import CSEPCatalog
+
+        class TimeOrderCatalog(CSEPCatalog):
+            def _order(self):
+                return numpy.argsort(self.catalog["origin_time"], kind="stable")
+
+            def get_longitudes(self):
+                return self.catalog["longitude"][self._order()]
+
+            def get_latitudes(self):
+                return self.catalog["latitude"][self._order()]
+
+            def get_magnitudes(self):
+                return self.catalog["magnitude"][self._order()]
+
+            def get_epoch_times(self):
+                return self.catalog["origin_time"][self._order()]
+        _TOC["c"] = TimeOrderCatalog
+    return _TOC["c"]
+
+
+def _image(x, form, what):
+    """(h) COPIES BEFORE USE: the object the evaluation gets is copy.copy / copy.deepcopy / a pickle image / the to_dict -> from_dict
+    image / the write_json -> load_json image of the object that was built. A form the tree under test itself can not produce for
+    this object (TypeError ...) is skipped and counted."""
+    import copy
+    import os
+    import pickle
+    import tempfile
+    try:
+        if form == "copy":
+            return copy.copy(x)
+        if form == "deepcopy":
+            return copy.deepcopy(x)
+        if form == "pickle":
+            return pickle.loads(pickle.dumps(x))
+        if form == "dict":
+            return type(x).from_dict(x.to_dict())
+        if form == "json":
+            with tempfile.TemporaryDirectory(prefix="c20j_") as td:
+                fn = os.path.join(td, "cat.json")
+                x.write_json(fn)
+                return type(x).load_json(fn)
+    except Exception as e:
+        FORM_UNSUPPORTED.add(f"{what}:{form}:{type(e).__name__}")
+    return x
+
+
 import datetime as _dt
 T0, T1 = _dt.datetime(2020, 1, 1), _dt.datetime(2021, 1, 1)      # every forecast carries its time window (366 days): scale=True evaluates
 
@@ -669,6 +733,10 @@ def _objects(inp, ev_perm=None, cat_perm=None, cell_perm=None, share=None, layou
         lay = layout or inp.get("layout", "C")
         f1 = GriddedForecast(start_time=T0, end_time=T1, data=_lay(d1, lay), region=region, magnitudes=mags, name="f1")
         f2 = GriddedForecast(start_time=T0, end_time=T1, data=_lay(d2, lay), region=region, magnitudes=mags, name="f2")
+        fform = (inp.get("kw") or {}).get("fore_form", "plain")
+        if fform != "plain":
+            f1, f2 = _image(f1, fform, "gridded forecast"), _image(f2, fform, "gridded forecast")
+            region = f1.region
     if via_file:
         import os
         import tempfile
@@ -687,7 +755,18 @@ def _objects(inp, ev_perm=None, cat_perm=None, cell_perm=None, share=None, layou
 
     obs_class = (inp.get("kw") or {}).get("obs_class", "CSEPCatalog")
 
+    obs_form = (inp.get("kw") or {}).get("obs_form", "plain")
+
     def mk_cat(evs, cid=None, with_region=True, observed=False):
+        cat = _mk_cat_plain(evs, cid, with_region, observed)
+        if observed and obs_form != "plain":
+            cat = _image(cat, obs_form, "observed catalog")
+        return cat
+
+    def _mk_cat_plain(evs, cid=None, with_region=True, observed=False):
+        if observed and obs_class == "accessor-order":
+            # (j) a USER SUBCLASS of CSEPCatalog whose documented accessors present the events in TIME order, whatever the storage order
+            return _time_order_class()(data=_rows(evs), region=region if with_region else None, catalog_id=cid)
         if observed and obs_class == "UCERF3Catalog":
             # the other concrete catalog class: big-endian structured rows with further columns
             from csep.core.catalogs import UCERF3Catalog
@@ -723,7 +802,8 @@ def _objects(inp, ev_perm=None, cat_perm=None, cell_perm=None, share=None, layou
         boxes = None
         ev_cells, cat_cells = [pi[e[6]] for e in events], [[pi[e[6]] for e in c] for c in cats]
         nc_eff = nc
-    return SimpleNamespace(keep=keep, region=region, catalog=mk_cat(events, observed=True), mk_catalog=lambda: mk_cat(events, observed=True),
+    own_idx = (0 if cat_perm is None else list(cat_perm).index(0)) if len(inp["cats"]) else None
+    return SimpleNamespace(own_idx=own_idx, keep=keep, region=region, catalog=mk_cat(events, observed=True), mk_catalog=lambda: mk_cat(events, observed=True),
                            mk_catalog_nr=lambda: mk_cat(events, None, False, observed=True), f1=f1, f2=f2, d1=d1,
                            d2=d2, mk_cf=mk_cf, sigma=sigma, pi=pi, nc=nc_eff, nb=len(inp["mags"]), events=events, cats=cats,
                            ev_cells=ev_cells, ev_bins=[e[7] for e in events], boxes=boxes, keys_ok=keys_ok,
@@ -756,13 +836,16 @@ def _outcome(r):
     return dict(obs=_flat(r.observed_statistic), q=_flat(r.quantile), dist=_flat(r.test_distribution), status=r.status)
 
 
-CALL = dict(form="keyword")
+CALL = dict(form="keyword", errstate=False)
+ERR_ROBUST = ("poisson_N", "nbd_N", "cat_N", "cat_N_own")      # evaluations whose unchanged code computes no log(0) / 0/0 on valid inputs
 
 
 def _call(f, *a, **k):
     from .c06 import call_form
     try:
-        with contextlib.redirect_stdout(io.StringIO()), numpy.errstate(all="ignore"):
+        # (k) GLOBAL NUMERIC STATE: a share of the robust evaluations runs with divide / invalid raising
+        with contextlib.redirect_stdout(io.StringIO()), \
+                (numpy.errstate(divide="raise", invalid="raise") if CALL["errstate"] else numpy.errstate(all="ignore")):
             # keyword arguments as keywords, or POSITIONALLY in the order of the function's signature (round 6 pre-emption)
             return _outcome(call_form(f, a, k, CALL["form"]))
     except Exception as e:       # an outcome like any other: it has to be the same for every storage order
@@ -829,6 +912,12 @@ def _evaluate(o, inp, names):
             numpy.random.seed(seed % (2 ** 32))
             return _call(f, o.mk_cf(), o.mk_catalog(), verbose=vb, **k)
         return _call(f, o.mk_cf(), o.mk_catalog(), seed=seed, verbose=vb, **k)
+    def own_catalog(f):
+        cf = o.mk_cf()
+        own = getattr(cf, "catalogs", None)
+        if not isinstance(own, list) or not own or getattr(o, "own_idx", None) is None:
+            return dict(skipped="no list of catalog objects")
+        return _call(f, cf, own[o.own_idx], verbose=vb)
     ta, ts, ws = kw.get("t_alpha", 0.05), bool(kw.get("t_scale", False)), bool(kw.get("w_scale", False))
     table = {
         "poisson_N": lambda: _call(pe.number_test, o.f1, obs("poisson_N")),
@@ -844,6 +933,11 @@ def _evaluate(o, inp, names):
         "binary_CL": lambda: sim(be.binary_conditional_likelihood_test, "binary_CL", o.f1, obs("binary_CL")),
         "binary_T": lambda: _call(be.binary_paired_t_test, o.f1, o.f2, o.mk_catalog(), alpha=ta, scale=ts),
         "brier": lambda: sim(br.brier_score_test, "brier", o.f1, obs("brier")),
+        # (l) ONE OBJECT IN TWO ROLES: the same forecast object as both arguments of a comparison test; the observed catalog is one of
+        # the forecast's OWN catalog objects (the one that is first in the base order, wherever it is stored now)
+        "paired_T_same": lambda: _call(pe.paired_t_test, o.f1, o.f1, o.mk_catalog(), alpha=ta, scale=ts),
+        "W_same": lambda: _call(pe.w_test, o.f1, o.f1, o.mk_catalog(), scale=ws),
+        "cat_N_own": lambda: own_catalog(ce.number_test),
         "cat_N": lambda: _call(ce.number_test, o.mk_cf(), o.mk_catalog(), verbose=vb),
         "cat_S": lambda: _call(ce.spatial_test, o.mk_cf(), o.mk_catalog(), verbose=vb),
         "cat_M": lambda: _call(ce.magnitude_test, o.mk_cf(), o.mk_catalog(), verbose=vb),
@@ -856,7 +950,11 @@ def _evaluate(o, inp, names):
         if safe.get(n):
             out[n] = dict(skipped=safe[n])
             continue
-        out[n] = table[n]()
+        CALL["errstate"] = bool(kw.get("errstate")) and n in ERR_ROBUST
+        try:
+            out[n] = table[n]()
+        finally:
+            CALL["errstate"] = False
     return out
 
 
@@ -906,13 +1004,15 @@ def _quantile_band_ok(base, other):
 
 def _compare(name, kind, base, other):
     """None if `other` (outcome on a permuted input) is what C20 allows given `base`, else a description"""
+    if name == "cat_N_own" and ("skipped" in base or "skipped" in other):
+        return None                  # a forecast that is not backed by a list of catalog objects has no "own catalog"
     if set(base) != set(other) or "exc" in base or "none" in base or "skipped" in base:
         return None if base == other else f"{name}: outcome changed from {_brief(base)} to {_brief(other)}"
     if base["status"] != other["status"]:
         return f"{name}: status {base['status']!r} became {other['status']!r}"
     if not _close_list(base["obs"], other["obs"]):
         return f"{name}: observed statistic {base['obs']} became {other['obs']}"
-    if name in ("paired_T", "binary_T") and _degenerate_t(base) and _degenerate_t(other):
+    if name in ("paired_T", "binary_T", "paired_T_same") and _degenerate_t(base) and _degenerate_t(other):
         # sample variance of the log-rate differences is zero up to rounding (all target events in bins with the same
         # rate ratio): t = ig / (sqrt(+-eps) / sqrt N) is nan or astronomically large depending on the last bit
         return None if _close(base["q"][1], other["q"][1]) else f"{name}: t critical {base['q']} became {other['q']}"
@@ -1029,6 +1129,8 @@ class _Corr:
 
     @_guard
     def counts(self, o, tag, expect_perm_of=None, catalog=None):
+        if (self.case.get("inp", {}).get("kw") or {}).get("obs_form") in ("dict", "json"):
+            return          # the catalog's own region came back without magnitudes: its magnitude gridding is not the forecast's
         impl = _impl_counts(o, catalog)
         i = self.drv.ask(f"c20_counts {o.nc} {o.nb} {ilist(o.ev_cells)} {ilist(o.ev_bins)}")
         self.todo.append(("counts", tag, i, impl, o, expect_perm_of))
@@ -1084,6 +1186,10 @@ class _Corr:
             except Exception as e:
                 self.run.mismatch(dict(self.case, variant=tag), f"target_event_rates raised {type(e).__name__}", "rates")
                 return
+        if (self.case.get("inp", {}).get("kw") or {}).get("obs_class") == "accessor-order":
+            # the catalog's accessors are the source of truth: they present the events in time order
+            order = sorted(range(n), key=lambda k: o.events[k][1])
+            r1, r2 = [r1[k] for k in order], [r2[k] for k in order]
         if not (_bits_equal(list(ir1), r1) and _bits_equal(list(ir2), r2)):
             self.run.mismatch(dict(self.case, variant=tag), "target_event_rates differ from data[cell, bin] per event",
                               "targetRates = ev.map (rateAt data)")
@@ -1346,14 +1452,21 @@ def float_sum_cases(run, rng, n):
 
 
 # ----------------------------------------------------------------------------- one case
-ALL = ["poisson_N", "poisson_L", "poisson_CL", "poisson_S", "poisson_M", "nbd_N", "paired_T", "W", "binary_S", "binary_CL",
+ALL = ["paired_T_same", "W_same", "cat_N_own", "poisson_N", "poisson_L", "poisson_CL", "poisson_S", "poisson_M", "nbd_N", "paired_T", "W", "binary_S", "binary_CL",
        "binary_T", "brier", "cat_N", "cat_S", "cat_M", "cat_PL", "cat_resampled_M", "cat_MLL"]
 GRIDDED = [n for n in ALL if not n.startswith("cat_")]
 CATALOG = [n for n in ALL if n.startswith("cat_")]
 
 
+SPATIAL_ONLY = ["paired_T_same", "W_same", "poisson_N", "nbd_N", "poisson_S", "poisson_M", "binary_S", "paired_T", "W", "cat_N", "cat_S", "cat_PL"]
+
+
 def _names(inp, names):
     only = inp.get("only")
+    if (inp.get("kw") or {}).get("obs_form") in ("dict", "json"):
+        # the dict / JSON image of a catalog carries its region WITHOUT magnitudes (unchanged tree): only the evaluations that grid the
+        # observation in space, or through the forecast's own bins, are defined for it
+        names = [n for n in names if n in SPATIAL_ONLY]
     return [n for n in names if only is None or n in only]
 
 
@@ -1379,8 +1492,14 @@ def check_input(run, inp, rng, tag="gen"):
     if inp.get("tile"):
         inp = _expand_tile(inp)
         run.count("events:more-than-2^16")
-    ALL_, CATALOG_ = _names(inp, ALL), _names(inp, CATALOG)
     kw = inp.get("kw") or {}
+    if kw.get("obs_class") == "accessor-order" and kw.get("obs_form") == "pickle":
+        kw["obs_form"] = "deepcopy"          # a class defined inside a function does not pickle (Python, not the library)
+    if "qt" in inp and kw.get("obs_form") in ("dict", "json"):
+        kw["obs_form"] = "deepcopy"          # the unchanged tree loses a quadtree region through the dict / JSON form (known finding D43)
+    if kw.get("obs_class") == "UCERF3Catalog" and kw.get("obs_form") in ("dict", "json"):
+        kw["obs_form"] = "copy"              # to_dict / from_dict are defined for the CSEP row format
+    ALL_, CATALOG_ = _names(inp, ALL), _names(inp, CATALOG)
     for key in sorted(kw):
         run.count(f"kw:{key}={kw[key]}")
     summary = dict(tag=tag, shape=inp["shape"], cells=len(inp["origins"]), bins=len(inp["mags"]), events=len(inp["events"]),
@@ -1396,6 +1515,19 @@ def check_input(run, inp, rng, tag="gen"):
     full = dict(summary, inp=compact)
     corr = _Corr(run, full)
     base_o = _objects(inp)
+    if kw.get("bad_call_first"):
+        # (i) STATE AFTER A CAUGHT EXCEPTION: calls the library rejects, on the SAME forecast objects every later evaluation uses
+        from csep.core import poisson_evaluations as _pe
+        for what, f in (("random_numbers of the wrong width", lambda: _pe.conditional_likelihood_test(
+                            base_o.f1, base_o.mk_catalog(), num_simulations=2, seed=1,
+                            random_numbers=numpy.full((2, len(inp["events"]) + 1), 0.5))),
+                        ("observation that is not a catalog, scale=True", lambda: _pe.paired_t_test(base_o.f1, base_o.f2, [1, 2, 3], scale=True))):
+            try:
+                with contextlib.redirect_stdout(io.StringIO()), numpy.errstate(all="ignore"):
+                    f()
+                run.count("bad-call-first:accepted")
+            except Exception as e:
+                run.count(f"bad-call-first:raised-{type(e).__name__}")
     base = _evaluate(base_o, inp, ALL_)
     for n, oc in base.items():
         run.count(f"outcome:{n}:" + ("exc:" + oc["exc"] if "exc" in oc else ("none" if "none" in oc else
@@ -1437,6 +1569,9 @@ def check_input(run, inp, rng, tag="gen"):
         nonlocal ncalls
         ncalls += len(names)
         for n in names:
+            if n not in base or n not in res:
+                run.count(f"judge:evaluation-not-in-both:{kind}:{n}")
+                continue
             why = _compare(n, "events" if kind == "inplace" else kind, base[n], res[n])
             if why:
                 what = f"permuting the {kind}" if kind != "inplace" else f"re-ordering the observed events in place ({how})"
@@ -1507,7 +1642,7 @@ def check_input(run, inp, rng, tag="gen"):
                 corr.concrete(o, f"cells{k}", res)
                 corr.catalog_concrete(o, f"cells{k}", res)
                 corr.normll(o, f"cells{k}", res)
-    if not inp.get("no_session"):
+    if not inp.get("no_session") and kw.get("obs_form") not in ("dict", "json"):
         nvar += _inplace_session(run, inp, base_o, base, corr, judge)
     # ALIASING OF RETURNED OBJECTS + HISTORY: every array the public API of the shared forecast objects / a catalog hands out is
     # overwritten in place by the caller, then ALL evaluations are repeated on the SAME forecast objects (fresh catalog objects of
@@ -1569,7 +1704,8 @@ def _inplace_session(run, inp, base_o, base, corr, judge):
     o.mk_catalog_nr = lambda: cat_nr
     # a pass over a CatalogForecast that ends in an exception leaves its cursor mid-pass (known finding D27 of property
     # C13, not a storage-order matter): the forecast OBJECT is re-used only where no catalog-based evaluation raises
-    ALL_, CATALOG_ = _names(inp, ALL), _names(inp, CATALOG)
+    # (the "own catalog" evaluation identifies its catalog by position in a fresh forecast object: not part of the session)
+    ALL_, CATALOG_ = [n for n in _names(inp, ALL) if n != "cat_N_own"], [n for n in _names(inp, CATALOG) if n != "cat_N_own"]
     share_cf = not any("exc" in base[x] for x in CATALOG_)
     run.count("inplace:catalog-forecast-object-" + ("shared" if share_cf else "fresh (D27)"))
     if share_cf:
@@ -1641,7 +1777,7 @@ def run(run, rng, tier):
     shapes = ["single", "qt-single", "row", "qt-quadkeys", "col", "qt-catalog", "rect", "subset", "subset-large"]
     # fixed case counts (deterministic for a seed); the wall-clock budget is only a safety cap on slow machines
     budget = 100.0 if tier == "quick" else 900.0
-    ncases = 100 if tier == "quick" else 1000
+    ncases = 90 if tier == "quick" else 1000
     t0 = time.time()
     k = 0
     while k < ncases and (time.time() - t0 < budget or k < len(shapes)):
@@ -1660,6 +1796,8 @@ def run(run, rng, tier):
         check_input(run, inp, rng, tag="long-catalog")
         k += 1
     run.extra["generated_cases"] = k
+    if FORM_UNSUPPORTED:
+        run.extra["copy_forms_unsupported_by_the_tree"] = sorted(FORM_UNSUPPORTED)
     float_sum_cases(run, rng, 60 if tier == "quick" else 600)
 
 
